@@ -75,7 +75,7 @@ func request(conn, seq int, marked bool) []byte {
 	return m.RefBytes()
 }
 
-const garbageVariants = 5
+const garbageVariants = 7
 
 // garbage returns bytes that no Diameter decoder can accept as the next message.
 func garbage(variant int) []byte {
@@ -91,6 +91,10 @@ func garbage(variant int) []byte {
 		return append(hdr(28, 280), 0, 0, 1, 8, 0x40, 0, 0, 4)
 	case 3: // an AVP that claims more bytes than the message has
 		return append(hdr(32, 280), 0, 0, 1, 8, 0x40, 0, 0, 200, 1, 2, 3, 4)
+	case 5: // a complete message whose grouped AVP holds a member that claims more bytes than the group has
+		return append(hdr(40, 280), 0, 0, 1, 4, 0x40, 0, 0, 20, 0, 0, 1, 10, 0x40, 0, 0, 16, 0, 0, 0, 1)
+	case 6: // a complete message whose grouped AVP ends inside the header of a second member
+		return append(hdr(44, 280), 0, 0, 1, 4, 0x40, 0, 0, 24, 0, 0, 1, 10, 0x40, 0, 0, 12, 0, 0, 0, 1, 0, 0, 1, 10)
 	default: // another protocol
 		return []byte("GET /index.html HTTP/1.1\r\nHost: example\r\n\r\n")
 	}
@@ -694,7 +698,7 @@ func classify(c Case) (bool, []string) {
 
 var prop = ev.Register(&ev.Prop[Case]{
 	ID: "C15", Name: "isolation",
-	Rule: "Server.Serve on a memnet.Listener; 2..5 connections with 1..6 numbered requests (1 in 3 connections: the first handler requests CloseNotify); faults: a marked request whose handler panics, undecodable bytes (5 variants), either of them optionally while a server-side Write of another goroutine is stuck in that connection's transport, EOF / reset at a message boundary or inside a message, at position 0..N of the connection's sequence; 0..3 temporary accept errors; a scripted global interleaving of open / feed actions, each optionally awaited (answer received / faulty transport closed) before the script continues; at the end every healthy connection must hold the answer to each of its requests, every faulty transport must be closed, undecodable input must have been offered to the ErrorReporter with that connection, a connection opened afterwards must be served and Serve must not have returned; non-trivial = a fault (or accept error) is scripted between two requests of a healthy connection",
+	Rule: "Server.Serve on a memnet.Listener; 2..5 connections with 1..6 numbered requests (1 in 3 connections: the first handler requests CloseNotify); faults: a marked request whose handler panics, undecodable bytes (7 variants, two of them complete messages with a malformed member inside a grouped AVP), either of them optionally while a server-side Write of another goroutine is stuck in that connection's transport, EOF / reset at a message boundary or inside a message, at position 0..N of the connection's sequence; 0..3 temporary accept errors; a scripted global interleaving of open / feed actions, each optionally awaited (answer received / faulty transport closed) before the script continues; at the end every healthy connection must hold the answer to each of its requests, every faulty transport must be closed, undecodable input must have been offered to the ErrorReporter with that connection, a connection opened afterwards must be served and Serve must not have returned; non-trivial = a fault (or accept error) is scripted between two requests of a healthy connection",
 	Gen:  genCase, Run: runCase, Classify: classify, Attempts: 5,
 })
 
